@@ -98,18 +98,41 @@ Theorem C53_size_accounting : forall c total inU st0, Start c total inU st0 ->
 Proof. exact reach_size_accounting. Qed.
 Print Assumptions C53_size_accounting.
 
-(* once activity stops: size_ = pool size - pages held, and the root counters (the only thing a pop() looks at to decide
-   whether to fail) add up to exactly that number: a pop() started now fails only if no page is free.
-   PARTIAL with respect to "an allocation fails only if, at some point during it, no page was free": proved for calls that
-   run while no other call is in progress; under concurrency the statement is covered by the correspondence + oracle only *)
-Theorem C53_quiescent_counts_exact_partial : forall c total inU st0, Start c total inU st0 ->
+(* every page of the pool is accounted for at every moment, under any interleaving: what the root counters offer + the pages
+   in the hands of processes = pool size, where a process has in its hands (wBusy): the pages it holds, one page per push() in
+   progress (wherever it is between ++size_ and the root), and one page per pop() in progress that has committed at the root
+   (wherever it is between the root CAS and its return) *)
+Theorem C53_pool_accounting_all_interleavings : forall c total inU st0, Start c total inU st0 ->
+  forall sched,
+  (if 0 <? cap c then unpack_left (word (nodes (sh (reach c st0 sched))) root) +
+                      unpack_right (word (nodes (sh (reach c st0 sched))) root) else 0)
+  + tsum wBusy (ths (reach c st0 sched)) = total.
+Proof. exact reach_pool_accounting. Qed.
+Print Assumptions C53_pool_accounting_all_interleavings.
+
+(* an allocation fails only if, at some point during it, no page was free: the step in which pop() answers false (process t, any
+   reachable state, any concurrent activity) is a read of the root that finds both counters zero and changes nothing, and in the
+   state it reads every one of the `total` pages of the pool is in the hands of some process: held, being pushed, or reserved
+   by a pop() that has already committed. (For capacity 0 pop() fails without touching anything: there is no page.) *)
+Theorem C53_pop_fails_only_when_no_page_free : forall c total inU st0, Start c total inU st0 ->
+  forall sched t st' evs b,
+  step c (reach c st0 sched) t = (st', evs, b) -> In (t, EvRetPop None) evs -> cap c <> 0 ->
+  sh st' = sh (reach c st0 sched) /\
+  unpack_left (word (nodes (sh (reach c st0 sched))) root) = 0 /\
+  unpack_right (word (nodes (sh (reach c st0 sched))) root) = 0 /\
+  tsum wBusy (ths (reach c st0 sched)) = total.
+Proof. exact reach_pop_fails_only_when_no_page_free. Qed.
+Print Assumptions C53_pop_fails_only_when_no_page_free.
+
+(* once activity stops: size_ = pool size - pages held, and the root counters add up to exactly that number *)
+Theorem C53_quiescent_counts_exact : forall c total inU st0, Start c total inU st0 ->
   forall sched, quiescent (ths (reach c st0 sched)) ->
   sz (sh (reach c st0 sched)) + tsum (fun th => lenN (theld th)) (ths (reach c st0 sched)) = total /\
   sz (sh (reach c st0 sched)) =
     (if 0 <? cap c then unpack_left (word (nodes (sh (reach c st0 sched))) root) +
                         unpack_right (word (nodes (sh (reach c st0 sched))) root) else 0).
 Proof. exact reach_quiescent_counts. Qed.
-Print Assumptions C53_quiescent_counts_exact_partial.
+Print Assumptions C53_quiescent_counts_exact.
 
 (* ... and every counter of the tree is exact: each inner counter equals what the subtree below offers, so the descent of a
    pop() from a non-zero root counter reaches a set bit (every released page can be allocated again).
@@ -140,6 +163,13 @@ Example C53_ex_contention :
   | _ => False
   end.
 Proof. vm_compute. repeat split; auto 20. Qed.
+
+(* the hypotheses of C53_pop_fails_only_when_no_page_free occur: with one page and two clients, the step in which client 1 is refused *)
+Example C53_ex_refusal_step :
+  exists s0, construct (measure 1) true = Some s0 /\
+  let st := reach (measure 1) (mkState s0 [mkT Ready [] [OpPop]; mkT Ready [] [OpPop]]) [0; 0; 0; 1] in
+  In (1, EvRetPop None) (snd (fst (step (measure 1) st 1))).
+Proof. eexists. split; [vm_compute; reflexivity|]. vm_compute. auto. Qed.
 
 (* created empty: two clients hold pages 1,3 and 2; after pushing and popping, quiescent, counts exact *)
 Example C53_ex_empty_start :
